@@ -28,6 +28,7 @@ import (
 	"time"
 
 	"github.com/golang/protobuf/proto"
+	"github.com/spf13/afero"
 	grpcgun "github.com/yandex/pandora/components/guns/grpc"
 	grpcscen "github.com/yandex/pandora/components/guns/grpc/scenario"
 	phttp "github.com/yandex/pandora/components/guns/http"
@@ -287,6 +288,105 @@ func runHTTP(f []string) string {
 	return fmt.Sprintf("own=%d hook=%d %s shape=%s reqs=%d", own, hookReported, desc, shapeOf(errSeen), reqs)
 }
 
+// ---- the HTTP gun with the real phout aggregator ----
+
+// phout <phase>,<phase>...   phase = <fault><status>*<count>, fault: ok reset trunc refuse
+//
+// One run of the standard HTTP gun(s) reporting into the standard phout aggregator
+// (netsample.NewPhout on an in-memory file system): written samples go back to the sample pool
+// and are handed out again by Acquire.  The phases are shot one after another (a short pause in
+// between lets the aggregator write and recycle); every line of the phout file is read back.
+// -> n=<lines> <proto>:<net> ...   in request order (requests are tagged r<i> with id i).
+func runPhout(f []string) string {
+	if len(f) != 2 {
+		return "unknown-case"
+	}
+	t := theTarget()
+	t.SetConnectMode("ok")
+	fs := afero.NewMemMapFs()
+	pc := netsample.DefaultPhoutConfig()
+	pc.Destination = "phout.log"
+	pc.ID = true
+	aggr, err := netsample.NewPhout(fs, pc)
+	if err != nil {
+		return "phouterr"
+	}
+	ctx, cancel := context.WithCancel(context.Background())
+	defer cancel()
+	done := make(chan error, 1)
+	go func() { done <- aggr.Run(ctx, core.AggregatorDeps{Log: zap.NewNop()}) }()
+	mk := func(addr string) *phttp.BaseGun {
+		g := phttp.NewHTTP1Gun(httpGunConfig(addr), zap.NewNop())
+		_ = g.Bind(aggr, core.GunDeps{Ctx: ctx, Log: zap.NewNop()})
+		return g
+	}
+	gUp, gDown := mk(t.Addr()), mk(a18.ClosedAddr())
+	defer gUp.Close()
+	defer gDown.Close()
+	total := 0
+	for _, ph := range strings.Split(f[1], ",") {
+		what, cnt, _ := strings.Cut(ph, "*")
+		n, _ := strconv.Atoi(cnt)
+		fault := strings.TrimRight(what, "0123456789")
+		status := what[len(fault):]
+		if status == "" {
+			status = "200"
+		}
+		for i := 0; i < n; i++ {
+			total++
+			req := &http.Request{Method: "GET", URL: &url.URL{Path: "/p"}, Header: http.Header{"X-Verif": []string{fault + ":" + status}},
+				Proto: "HTTP/1.1", ProtoMajor: 1, ProtoMinor: 1}
+			am := plainAmmo{invalidAmmo{req: req, tag: fmt.Sprintf("r%d", total), id: uint64(total)}}
+			if fault == "refuse" {
+				gDown.Shoot(am)
+			} else {
+				gUp.Shoot(am)
+			}
+		}
+		time.Sleep(15 * time.Millisecond)
+	}
+	cancel()
+	select {
+	case <-done:
+	case <-time.After(5 * time.Second):
+		return "hang"
+	}
+	data, err := afero.ReadFile(fs, "phout.log")
+	if err != nil {
+		return "readerr"
+	}
+	byID := map[int]string{}
+	lines := 0
+	for _, line := range strings.Split(strings.TrimSpace(string(data)), "\n") {
+		if line == "" {
+			continue
+		}
+		lines++
+		fl := strings.Split(line, "\t")
+		if len(fl) != 12 {
+			return "badline"
+		}
+		tag, idS, _ := strings.Cut(fl[1], "#")
+		id, _ := strconv.Atoi(idS)
+		if tag != fmt.Sprintf("r%d", id) {
+			return "badtag:" + fl[1]
+		}
+		if _, dup := byID[id]; dup {
+			return fmt.Sprintf("dup:%d", id)
+		}
+		byID[id] = fl[11] + ":" + fl[10]
+	}
+	parts := []string{fmt.Sprintf("n=%d", lines)}
+	for i := 1; i <= total; i++ {
+		v, ok := byID[i]
+		if !ok {
+			v = "missing"
+		}
+		parts = append(parts, v)
+	}
+	return strings.Join(parts, " ")
+}
+
 // ---- HTTP scenario gun ----
 
 type nopTemplater struct{ fail bool }
@@ -528,6 +628,27 @@ func genGuns(r *vh.Rand, tier string) []string {
 	for i := 0; i < 3; i++ {
 		out = append(out, fmt.Sprintf("http c badconnect 200 %s", rndTagging()))
 		out = append(out, fmt.Sprintf("http c connreset 200 %s", rndTagging()))
+	}
+	// the real phout aggregator (samples are recycled through the pool): phases of failed and
+	// answered exchanges in every order
+	kinds := []string{"reset", "refuse", "trunc500", "ok200", "ok404", "ok503"}
+	for i, a := range kinds {
+		for j, bb := range kinds {
+			if i != j {
+				out = append(out, fmt.Sprintf("phout %s*12,%s*12,%s*12", a, bb, a))
+			}
+		}
+	}
+	np := 3
+	if tier == "thorough" {
+		np = 60
+	}
+	for i := 0; i < np; i++ {
+		var ph []string
+		for j := r.Range(3, 7); j > 0; j-- {
+			ph = append(ph, fmt.Sprintf("%s*%d", r.Pick(kinds), r.Range(1, 15)))
+		}
+		out = append(out, "phout "+strings.Join(ph, ","))
 	}
 	// HTTP scenarios: every failing kind at every position of a 3-step scenario, then random ones
 	hkinds := []string{"reset", "trunc", "pp200", "pp500", "tmpl", "pre"}
